@@ -123,7 +123,7 @@ class ResultInterp(Interp):
             a = [tuple(x) if isinstance(x, list) else x for x in args]
             if name in ("numpy.float64", "numpy.float32") and a and a[0] is None:
                 return float("nan")  # numpy turns None into nan
-            if name in ("numpy.asarray", "numpy.array", "numpy.float64", "float") and a:
+            if name in ("numpy.asarray", "numpy.asanyarray", "numpy.array", "numpy.float64", "float") and a:
                 return a[0]
             return Tagged(name, a, {k: v for k, v in kwargs.items() if k != "dtype"})
         if name == "re.compile" and args and isinstance(args[0], str):
@@ -161,7 +161,7 @@ _STR_METHODS = {"join", "split", "rsplit", "partition", "rpartition", "lower", "
 REDUCER_FUNCS = {
     "numpy.average", "numpy.mean", "numpy.std", "numpy.sum", "numpy.min", "numpy.max", "numpy.amin", "numpy.amax", "numpy.nanmean",
     "numpy.nanstd", "numpy.median", "numpy.var", "numpy.sqrt", "numpy.nansum", "numpy.square", "numpy.power", "numpy.asarray",
-    "numpy.array", "numpy.float64", "numpy.abs", "numpy.subtract", "numpy.nanmin", "numpy.nanmax",
+    "numpy.array", "numpy.asanyarray", "numpy.float64", "numpy.abs", "numpy.subtract", "numpy.nanmin", "numpy.nanmax",
 }
 
 
